@@ -5,6 +5,9 @@ import json, os, subprocess
 V = os.path.dirname(os.path.abspath(__file__))
 
 CLAIMED = {
+ "C01": ("The real verifyConsensusFieldMain -> VrfVerifyPriority -> verifyVotes (BLS branch) on an arbitrary decoded header over a symbolic two-validator look-back set with signature / VRF / seat / quorum oracles: acceptance implies the mathematical weight of distinct eligible signers with protocol-valid sortition reaches the protocol's quorum, and the proposer credential used the protocol's threshold.",
+         "Trusted: gosym, z3; crypto idealised; two validators, up to two votes, EnableBls; certificate branch outside. Two open known findings (header-chosen thresholds, voter eligibility).",
+         "solver-based symbolic execution of go/ssa (bv) with uninterpreted crypto oracles"),
  "C02": ("Bounded symbolic history (vote attempts with symbolic kind/round/index, context changes, crash+restart on the same database) over the real VoteDB code; a ghost list of signed votes decides 'at most one per kind, round, index'.",
          "Trusted: gosym, z3; signatures and RLP of VoteItem idealised (native replay uses the real ones); rounds do not go back across restarts; history length 4/5.",
          "solver-based symbolic execution of go/ssa (bv), bounded history with symbolic arguments"),
